@@ -1,3 +1,4 @@
+import RxnModel.Generated.Facts
 import RxnModel.Proofs.Batcher
 import RxnModel.Proofs.Reorder
 /-!
@@ -27,6 +28,27 @@ example : (Batcher.run (Batcher.new 2 true) [.add 1, .fire, .add 2, .flush (.tok
 /-- a time-out token of another batch flushes nothing and changes nothing -/
 theorem stale_token_noop {α : Type} (s : Batcher.St α) (n : Nat) (h : n ≠ s.token) :
     Batcher.flush s (.tok n) = (s, []) := Batcher.flush_stale s n h
+
+/-- the token of a batch that has been handed out is never current again: whatever happens afterwards (any further
+history `ops`), presenting that token flushes nothing — the "already flushed batch" clause end to end -/
+theorem flushed_token_never_flushes_again {α : Type} (s : Batcher.St α) (t : Batcher.Tok) (ops : List (Batcher.Op α))
+    (hflushed : (Batcher.flush s t).2 ≠ []) :
+    let s' := (Batcher.run (Batcher.flush s t).1 ops).1
+    Batcher.flush s' (.tok s.token) = (s', []) := by
+  intro s'
+  apply Batcher.flush_stale
+  have h1 := Batcher.flush_token_succ s t hflushed
+  have h2 := Batcher.run_token_mono ops (Batcher.flush s t).1
+  show s.token ≠ (Batcher.run (Batcher.flush s t).1 ops).1.token
+  omega
+
+/-- **the atomicity the models assume is the code's lock structure** (regenerated from the source on every run, hard
+obligation): every exported `EventBatcher` method is `b.mu.Lock(); defer b.mu.Unlock()` around its whole body;
+`ReorderBuffer.Add` likewise and `Drain` holds `b.mu` for its whole loop; in `ReorderFetcher.flush`, `batcher.Flush`
+and `buffer.Reserve` lie inside one `flushMu` critical section and `Reserve` is called nowhere else. These are the
+actions `Batcher.step`, `fetchDone`, `drainStart…drainNext`, and `lock; flushA; flushB` of `Reorder.step`. -/
+theorem lock_shape :
+    Facts.c20BatcherMethodsLocked = 1 ∧ Facts.c20BufferAddDrainLocked = 1 ∧ Facts.c20ReserveUnderFlushMu = 1 := by decide
 
 /-- in every reachable state the armed timer carries the token of the current, non-empty batch (so its expiry
 flushes exactly that batch), and a callback that raced with `Stop` never carries a future token -/
